@@ -19,6 +19,13 @@ Per work item (one detector configuration x one 5-symbol family of the step alph
 
 Plus three lattice items: the two functions of ``physics/statistics.py`` directly, exact ties ``metric == bound``
 (dyadic arithmetic, "reaches the bound" = detection), and constructor defaults / the no-detector branch.
+
+Unit dimension (the statistic nu^T S^-1 nu has no unit): every explorer item carries a unit u; all its innovations are
+expressed in that unit (nu -> u nu, S -> u^2 S; kind-M covariances: only the first block).  The old families run at
+u = 1; the families FC* (strongly correlated covariances: every pairwise correlation >= 0.9, and block-diagonal
+mixed-unit ones) run at every unit of the tier, each against the reference on the very floats it was given, and
+``finalize`` compares the runs of one (configuration, family) across units step by step (same decisions, same metric to
+rounding).  The statistics / defaults lattices run at seven units (1e-9 .. 1e6, incl. 1 arc-second in radians).
 """
 from __future__ import annotations
 
@@ -54,7 +61,15 @@ RULE = (
     "is within 2e-6 (relative) of its bound, or (sliding) is longer than the window; distinct by construction "
     "(distinct histories of distinct detector configurations). states = distinct canonical detector states "
     "(all attributes: window contents / accumulated sums / metric) per work item, summed; transitions = real detector "
-    "calls; traces = histories (leaf, prefix+tail, fresh replay) validated end to end."
+    "calls; traces = histories (leaf, prefix+tail, fresh replay) validated end to end. UNITS: every explorer item has a "
+    "unit u and feeds (u nu, u^2 S); families F0..F5 run at u = 1, families FC0/FC1 (covariance kinds C = every pairwise "
+    "correlation 0.9..0.99, M = two such blocks, the first in unit u and the second in unit 1, S, I) run at every unit "
+    "of the tier {1e-6, 1e-3, 1, 1e3} (thorough: also 1e-9, 1e6; D = 5 there) with the same configurations at every unit; "
+    "units/invariance (finalize) = one case per (configuration, family, unit != 1): all tree steps and root tails "
+    "give the decisions and (to 2.1e-11) the metrics of the u = 1 run. The stat lattice (quadratic form: dim 1..8 x "
+    "kinds I,S,C,M,W x 4 magnitudes x 2 signs; W = every pairwise correlation 1e-6) and the defaults lattice (7 "
+    "detectors x 21 steps x kinds S,C,M,W) run at "
+    "the units {1e-9, 1e-6, 1 arcsec = 4.848e-6, 1e-3, 1, 1e3, 1e6}; exact ties at the units 2^-20, 1, 2^10."
 )
 ASSUMPTIONS = [
     "scipy.special.gammainccinv/gammaincc (validated against each other) are the chi-square reference",
@@ -64,6 +79,11 @@ ASSUMPTIONS = [
     "agree to < 1e-12 relative; decisions with |metric/bound - 1| <= 1e-9 are classified either-way, except exact "
     "dyadic ties where both sides are computed without rounding",
     "innovations are 1-D arrays, as UnscentedKalmanFilter.update produces them",
+    "a change of unit multiplies innovation and covariance entries by non-dyadic factors: the reference is evaluated on "
+    "the very floats handed to the code under test, so no extra tolerance is needed per run; mixed-unit (kind M) "
+    "covariances are block diagonal and their unit ratio is kept within 1e-6..1e6 (covariance ratio <= 1e12, "
+    "numerically non-singular for scipy.linalg.inv), their factorisation/inverse is block-wise exact in the zeros so "
+    "the error is that of the worse block",
 ]
 EXPECT_MIN_NONTRIVIAL = 20000
 
@@ -79,6 +99,13 @@ THRESHOLDS = (0.001, 0.05, 0.5)
 WINDOWS = (1, 2, 4, 10)
 DELTAS = (0.1, 0.8, 0.99)
 B_LEVELS = ("Bbelow", "Babove")
+ARCSEC = 4.84813681109536e-6  # one arc-second in radians
+# units of the direct lattices (stat, misc): covariance entries from 1e-18 to 1e12
+UNITS_LATTICE = (1.0, 1e-9, 1e-6, ARCSEC, 1e-3, 1e3, 1e6)
+TIE_UNITS = (1.0, 2.0**-20, 2.0**10)  # exact (dyadic) changes of unit for the exact ties
+M_UNIT_RANGE = (1e-6, 1e6)  # the first block of a kind-M covariance is expressed in the unit clipped to this range
+UTOL = 2.1  # units/invariance: |m_u - m_1| <= |m_u - r_u| + |r_u - r_1| + |r_1 - m_1| <= MTOL + 1e-13 + MTOL (r = reference;
+# r_u, r_1 differ by the rounding of the realised innovations only: a few ulp per step, sums of positive terms)
 
 # (dim, level, covariance) families of five symbols; every family mixes dimensions (except F3, the constant-dimension
 # control) and contains levels tied to the single-step bound and to the detector's own bound
@@ -89,11 +116,18 @@ FAMILIES = {
     "F3": ((2, "half", "S"), (2, "Bbelow", "S"), (2, "Babove", "S"), (2, "x10", "S"), (2, "zero", "S")),
     "F4": ((8, "half", "I"), (3, "x10", "S"), (1, "Bbelow", "I"), (2, "Babove", "S"), (3, "zero", "I")),
     "F5": ((1, "below", "S"), (8, "above", "I"), (2, "half", "I"), (3, "Bbelow", "S"), (8, "x10", "I")),
+    # unit families: strongly correlated (C) and block-diagonal mixed-unit (M) covariances, run at every unit of the tier
+    "FC0": ((2, "Bbelow", "C"), (3, "Babove", "M"), (8, "half", "C"), (1, "x10", "C"), (2, "below", "S")),
+    "FC1": ((3, "below", "C"), (2, "above", "C"), (8, "Babove", "C"), (4, "zero", "M"), (8, "Bbelow", "M")),
 }
 TIERS = {
-    # families, depth D, tails to 12 from depth <= D12, tails to 50 from depth <= D50, fresh long-tail replays <= DF
-    "quick": {"families": ("F0", "F1", "F2"), "D": 4, "D12": 3, "D50": 2, "DF": 1},
-    "thorough": {"families": ("F0", "F1", "F2", "F3", "F4", "F5"), "D": 6, "D12": 4, "D50": 3, "DF": 2},
+    # families, depth D, tails to 12 from depth <= D12, tails to 50 from depth <= D50, fresh long-tail replays <= DF;
+    # unit families x units: the same four bounds as "unit_depths" (thorough: one level shallower than the unit-1
+    # families, 2 x 6 x 8 more explorer items have to fit the thorough budget)
+    "quick": {"families": ("F0", "F1", "F2"), "D": 4, "D12": 3, "D50": 2, "DF": 1,
+              "unit_families": ("FC0",), "units": (1.0, 1e-6, 1e-3, 1e3), "unit_depths": (4, 3, 2, 1)},
+    "thorough": {"families": ("F0", "F1", "F2", "F3", "F4", "F5"), "D": 6, "D12": 4, "D50": 3, "DF": 2,
+                 "unit_families": ("FC0", "FC1"), "units": (1.0, 1e-9, 1e-6, 1e-3, 1e3, 1e6), "unit_depths": (5, 4, 3, 1)},
 }
 _EMPTY: dict = {}
 
@@ -134,19 +168,37 @@ def _config_in_family(tier, fi, kind, alpha, param):
     return THRESHOLDS.index(alpha) == (pi + fi) % len(THRESHOLDS)
 
 
-def items(tier, seed):
+def _config_in_unit_family(fi, kind, alpha, param):
+    """Unit families: every window / delta (and the standard detector) with ONE threshold each (rotating with the
+    family); the SAME configurations at every unit, so that every (configuration, family) exists at every unit."""
+    pi = WINDOWS.index(param) if kind == SLIDING else DELTAS.index(param) if kind == FADING else 0
+    return THRESHOLDS.index(alpha) == (pi + fi + 1) % len(THRESHOLDS)
+
+
+def _explore_items(tier, seed):
     t = TIERS[tier]
-    light, heavy = [], []
+    out = []
     for fi, fam in enumerate(t["families"]):
         for kind, alpha, param in _configs():
-            if not _config_in_family(tier, fi, kind, alpha, param):
-                continue
-            it = ("explore", kind, alpha, param, fam, t["D"], t["D12"], t["D50"], t["DF"], seed)
-            cheap = kind == STANDARD or (kind == SLIDING and param <= 2)
-            (light if cheap else heavy).append(it)
+            if _config_in_family(tier, fi, kind, alpha, param):
+                out.append(("explore", kind, alpha, param, fam, t["D"], t["D12"], t["D50"], t["DF"], seed, 1.0))
+    for fi, fam in enumerate(t["unit_families"]):
+        for unit in t["units"]:
+            for kind, alpha, param in _configs():
+                if _config_in_unit_family(fi, kind, alpha, param):
+                    out.append(("explore", kind, alpha, param, fam, *t["unit_depths"], seed, unit))
+    return out
+
+
+def items(tier, seed):
+    light, heavy = [], []
+    for it in _explore_items(tier, seed):
+        cheap = it[1] == STANDARD or (it[1] == SLIDING and it[3] <= 2)
+        (light if cheap else heavy).append(it)
     # heavy items first (longest first: fading, then wide windows) so the pool drains evenly; the runner re-runs item 0
     # and the middle item serially for its determinism check, so those two slots get cheap items
-    heavy.sort(key=lambda it: (it[1] != FADING, -(it[3] if it[1] == SLIDING else 0)))
+    # (deepest first: in the thorough tier the unit families are one level shallower)
+    heavy.sort(key=lambda it: (-it[5], it[1] != FADING, -(it[3] if it[1] == SLIDING else 0)))
     extra = [("stat", seed), ("tie", seed), ("misc", seed)]
     out = [light[0]] + heavy + extra + light[1:]
     mid = len(out) // 2
@@ -161,20 +213,37 @@ def bounds(tier, seed):
     return {
         "detector_configs": len(_configs()),
         "configs_per_family": {f: sum(_config_in_family(tier, fi, *c) for c in _configs()) for fi, f in enumerate(t["families"])},
+        "configs_per_unit_family_at_every_unit": {
+            f: [list(c) for c in _configs() if _config_in_unit_family(fi, *c)] for fi, f in enumerate(t["unit_families"])
+        },
+        "units_of_unit_families": t["units"],
+        "units_of_direct_lattices": UNITS_LATTICE,
+        "units_of_exact_ties": TIE_UNITS,
+        "covariance_kinds": {
+            "I": "identity",
+            "S": "full SPD, condition < 1e3",
+            "C": "every pairwise correlation +-rho, rho = 0.99 (dim 2), 0.97 (3), 0.95 (4), 0.9 (5..8)",
+            "M": "block diagonal, two C blocks; first block in the item's unit (clipped to 1e-6..1e6), second in unit 1",
+            "W": "as C with rho = 1e-6 (direct lattices only)",
+        },
+        "explore_items": len(_explore_items(tier, seed)),
         "thresholds": THRESHOLDS,
         "windows": WINDOWS,
         "deltas": DELTAS,
-        "families": {f: [list(s) for s in FAMILIES[f]] for f in t["families"]},
+        "families": {f: [list(s) for s in FAMILIES[f]] for f in t["families"] + t["unit_families"]},
         "depth_all_histories": t["D"],
         "tails_to_12_from_depth_le": t["D12"],
         "tails_to_50_from_depth_le": t["D50"],
         "fresh_long_tail_replays_from_depth_le": t["DF"],
+        "unit_families_depths_D_D12_D50_DF": t["unit_depths"],
         "narrowed": "quantifier 'all sequences of length 1..50' -> all sequences of length <= D over 5-symbol families "
-        "plus constant tails to 12/50; continuous thresholds/deltas -> the listed values; seed shifts the phase of the "
-        "SPD covariance and of the innovation direction only",
+        "plus constant tails to 12/50; continuous thresholds/deltas -> the listed values; positive-definite covariances "
+        "-> four kinds (condition < 1e3 at unit scale) x the listed units; seed shifts the phase of the covariances and "
+        "of the innovation direction only",
         "eps_near_bound": EPS,
         "either_way_window": EITHER,
         "metric_rel_tol": MTOL,
+        "unit_invariance_rel_tol": UTOL * MTOL,
     }
 
 
@@ -295,20 +364,33 @@ class _Filters:
 
 
 # ------------------------------------------------------------------------------------------------ symbols
+def _m_unit(unit):
+    return min(max(unit, M_UNIT_RANGE[0]), M_UNIT_RANGE[1])
+
+
+def _covariance(kind, dim, phase, unit):
+    """(covariance as list of lists expressed in ``unit``, unit of every component); condition of the unit-scale
+    matrix < 1e3 is checked (a change of unit D S D does not change the conditioning of the quadratic form)."""
+    base = ref.base_covariance(kind, dim, phase)
+    cond = float(np.linalg.cond(np.array(base, dtype=float)))
+    if not cond < 1e3:
+        raise ArithmeticError(f"lattice covariance too ill-conditioned: {kind}{dim} {cond}")
+    units = ref.component_units(kind, dim, _m_unit(unit) if kind == "M" else unit)
+    return ref.in_units(base, units), units
+
+
 class _Sym:
     __slots__ = ("idx", "dim", "level", "cov", "label", "mat", "low", "unit", "q0", "vec", "nis", "zero", "scaled")
 
-    def __init__(self, idx, spec, alpha, phase):
+    def __init__(self, idx, spec, alpha, phase, unit=1.0):
         self.idx = idx
         self.dim, self.level, self.cov = spec
         self.label = f"{self.dim}{self.level}{self.cov}"
-        lst = ref.identity(self.dim) if self.cov == "I" else ref.spd_matrix(self.dim, phase)
+        lst, units = _covariance(self.cov, self.dim, phase, unit)
         self.mat = np.array(lst, dtype=float)
-        cond = float(np.linalg.cond(self.mat))
-        if not cond < 1e3:
-            raise ArithmeticError(f"lattice covariance too ill-conditioned: {cond}")
         self.low = ref.cholesky_lower(lst)
-        self.unit = ref.direction(self.dim, 0.61 * phase)
+        # direction of the innovation, every component in its own unit (no zero component)
+        self.unit = [t * u for t, u in zip(ref.direction(self.dim, 0.61 * phase), units)]
         self.q0 = ref.quad_form_chol(self.unit, self.low)
         self.zero = np.zeros(self.dim)
         self.scaled = {}
@@ -347,16 +429,21 @@ class _Sym:
 
 class _Ctx:
     def __init__(self, item):
-        (_, self.kind, self.alpha, self.param, self.family, self.depth, self.d12, self.d50, self.dfresh, self.seed) = item
+        (_, self.kind, self.alpha, self.param, self.family, self.depth, self.d12, self.d50, self.dfresh, self.seed) = item[:10]
+        self.unit = float(item[10]) if len(item) > 10 else 1.0  # replay files written before the unit dimension: unit 1
         self.item = tuple(item)
         phase = 0.37 * (int(self.seed) % 1000)
-        self.syms = [_Sym(i, tuple(spec), self.alpha, phase + 0.11 * i) for i, spec in enumerate(FAMILIES[self.family])]
+        self.syms = [_Sym(i, tuple(spec), self.alpha, phase + 0.11 * i, self.unit) for i, spec in enumerate(FAMILIES[self.family])]
         self.filters = _Filters()
         self.states = set()
         self.transitions = 0
+        # decisions / metrics of the tree steps and of the root tails, in enumeration order (compared across units)
+        self.trace_on = False
+        self.trace_d = []
+        self.trace_m = []
 
     def base_case(self):
-        return {"kind": self.kind, "alpha": self.alpha, "param": self.param, "family": self.family}
+        return {"kind": self.kind, "alpha": self.alpha, "param": self.param, "family": self.family, "unit": self.unit}
 
 
 class _Path:
@@ -412,6 +499,9 @@ def _judge(res, ctx, sub, path, got, det_metric, metric_r, dof_r, bound_r, step_
         item=ctx.item,
     )
     res.observe(got, _f(det_metric))
+    if ctx.trace_on:
+        ctx.trace_d.append("?" if outcome == "either" else "1" if got else "0")
+        ctx.trace_m.append(_f(det_metric))
 
 
 def _monotone(res, ctx, path, det_before, rdet_before, sym, vec, got, metric_got, step_case):
@@ -504,9 +594,11 @@ def _run_explore(res, item):
     frontier = [(det0, rdet0, _Path())]
     record = {}  # history (tuple of symbol indices) -> (vec, decision, metric, canonical state)
     long_tails = []  # (history indices, tail symbol, recorded steps) for the fresh long replays
+    ctx.trace_on = True
     for tail_sym in ctx.syms:  # constant histories s^k: tails from the empty history
         long_tails.append(((), _run_tail(res, ctx, det0, rdet0, _Path(), tail_sym, 50, True)))
         res.traces += 1
+    ctx.trace_on = False
     for depth in range(1, ctx.depth + 1):
         nxt = []
         for det, rdet, path in frontier:
@@ -526,7 +618,9 @@ def _run_explore(res, item):
                 det2 = copy.deepcopy(det)
                 got = ctx.filters.call(res, (depth + sym.idx + len(hidx) * 2) % 6, det2, vec, sym.mat, step_case, ctx.item)
                 ctx.transitions += 1
+                ctx.trace_on = True
                 _judge(res, ctx, "tree", path2, got, det2.metric, metric_r, dof_r, bound_r, step_case)
+                ctx.trace_on = False
                 state2 = _canon(det2)
                 ctx.states.add(state2)
                 # the same transition by a direct call on another copy: same decision, same state
@@ -606,6 +700,8 @@ def _run_explore(res, item):
         res.traces += 1
     res.states += len(ctx.states)
     res.transitions += ctx.transitions
+    # for finalize (private attribute: travels with the pickled Result, stays out of the evidence)
+    res.unit_trace = (list(ctx.item[1:10]), ctx.unit, "".join(ctx.trace_d), ctx.trace_m, list(ctx.item))
 
 
 # ------------------------------------------------------------------------------------------------ lattice items
@@ -614,26 +710,44 @@ def _run_stat(res, item):
     seed = int(item[1])
     phase = 0.37 * (seed % 1000)
     for dim in range(1, 9):
-        for cov in ("I", "S"):
-            lst = ref.identity(dim) if cov == "I" else ref.spd_matrix(dim, phase + 0.05 * dim)
-            mat = np.array(lst, dtype=float)
-            for k, scale in enumerate((0.0, 1e-3, 1.0, 37.5)):
-                for flip in (1.0, -1.0):
-                    u = ref.direction(dim, phase + 0.3 * k)
-                    vec = [flip * scale * t * (1.0 + 0.25 * i) for i, t in enumerate(u)]
-                    want = ref.quad_form(vec, lst)
-                    got = _f(_real(chiSquareQuadraticForm, np.array(vec), mat))
-                    res.case(
-                        "stat/quadratic_form",
-                        {"dim": dim, "cov": cov, "scale": scale, "flip": flip},
-                        got is not None and abs(got - want) <= MTOL * max(abs(want), 1e-300),
-                        nontrivial=cov == "S" and scale > 0,
-                        signature="C17/stat/quadratic_form",
-                        observed=got,
-                        expected=want,
-                        item=item,
-                    )
-                    res.observe(got)
+        for cov in ("I", "S", "C", "M", "W"):
+            at_unit_1 = {}
+            for unit in UNITS_LATTICE:  # unit 1 first: the other units are also compared with it
+                lst, units = _covariance(cov, dim, phase + 0.05 * dim, unit)
+                mat = np.array(lst, dtype=float)
+                for k, scale in enumerate((0.0, 1e-3, 1.0, 37.5)):
+                    for flip in (1.0, -1.0):
+                        u = ref.direction(dim, phase + 0.3 * k)
+                        vec = [flip * scale * t * (1.0 + 0.25 * i) * units[i] for i, t in enumerate(u)]
+                        want = ref.quad_form(vec, lst)
+                        got = _f(_real(chiSquareQuadraticForm, np.array(vec), mat))
+                        correlated = cov in ("S", "C", "W") and dim > 1 or cov == "M" and dim > 2
+                        res.case(
+                            "stat/quadratic_form",
+                            {"dim": dim, "cov": cov, "scale": scale, "flip": flip, "unit": unit},
+                            got is not None and abs(got - want) <= MTOL * max(abs(want), 1e-300),
+                            nontrivial=correlated and scale > 0,
+                            signature=f"C17/stat/quadratic_form/{cov}/{'unit_1' if unit == 1.0 else 'unit_small' if unit < 1.0 else 'unit_large'}",
+                            observed=got,
+                            expected=want,
+                            item=item,
+                        )
+                        res.observe(got)
+                        if unit == 1.0:
+                            at_unit_1[(k, flip)] = got
+                            continue
+                        # the statistic has no unit: same value as in unit 1, to the rounding of both evaluations
+                        one = at_unit_1[(k, flip)]
+                        res.case(
+                            "stat/unit_invariance",
+                            {"dim": dim, "cov": cov, "scale": scale, "flip": flip, "unit": unit},
+                            got is not None and one is not None and abs(got - one) <= UTOL * MTOL * max(abs(one), 1e-300),
+                            nontrivial=correlated and scale > 0,
+                            signature=f"C17/stat/unit_invariance/{cov}/{'unit_small' if unit < 1.0 else 'unit_large'}",
+                            observed=got,
+                            expected=one,
+                            item=item,
+                        )
     alphas = (0.001, 0.01, 0.05, 0.3, 0.5, 0.9, 0.999)
     dofs = (1, 2, 3, 4, 5, 6, 7, 8, 1.5, 4.5, 13.75, 24, 80, 398.0, 1592.0)
     for alpha in alphas:
@@ -697,26 +811,27 @@ def _run_tie(res, item):
         if not (1e-9 < alpha < 1 - 1e-9) or float(chi2.isf(alpha, dof)) != m:
             continue  # no exact tie at this lattice point
         found[kind] += 1
-        for label, xl, want in (("below", x - step, False), ("tie", x, True), ("above", x + step, True)):
-            det = _make_real(kind, alpha, param, via_config=False)
-            for dd, xx in prefix:
-                _real(det, _tie_vec(dd, xx), np.eye(dd))
-            got = bool(_real(det, _tie_vec(d, xl), np.eye(d)))
-            rd2 = rd.copy()
-            m_want, _, _ = rd2.step(xl * xl + 0.25 * (d - 1), d)
-            ok = got == want and _f(det.metric) == m_want
-            res.case(
-                "tie/decision",
-                {"kind": kind, "param": param, "alpha": alpha, "prefix": prefix, "dim": d, "x": xl, "at": label},
-                ok,
-                nontrivial=True,
-                signature=f"C17/{kind}/tie/{label}",
-                observed={"detected": got, "metric": _f(det.metric)},
-                expected={"detected": want, "metric": m_want, "bound": m},
-                outcome=f"{label}:{want}",
-                item=item,
-            )
-            res.observe(got, _f(det.metric))
+        for unit in TIE_UNITS:  # a dyadic unit changes no mantissa: the tie stays exact in every unit
+            for label, xl, want in (("below", x - step, False), ("tie", x, True), ("above", x + step, True)):
+                det = _make_real(kind, alpha, param, via_config=False)
+                for dd, xx in prefix:
+                    _real(det, unit * _tie_vec(dd, xx), unit * unit * np.eye(dd))
+                got = bool(_real(det, unit * _tie_vec(d, xl), unit * unit * np.eye(d)))
+                rd2 = rd.copy()
+                m_want, _, _ = rd2.step(xl * xl + 0.25 * (d - 1), d)
+                ok = got == want and _f(det.metric) == m_want
+                res.case(
+                    "tie/decision",
+                    {"kind": kind, "param": param, "alpha": alpha, "prefix": prefix, "dim": d, "x": xl, "at": label, "unit": unit},
+                    ok,
+                    nontrivial=True,
+                    signature=f"C17/{kind}/tie/{label}",
+                    observed={"detected": got, "metric": _f(det.metric)},
+                    expected={"detected": want, "metric": m_want, "bound": m},
+                    outcome=f"{label}:{want}",
+                    item=item,
+                )
+                res.observe(got, _f(det.metric))
     for kind, n in found.items():
         if n < 10:
             res.cap(f"only {n} exact metric==bound ties found for {kind}; the equality side of the threshold is weakly covered")
@@ -729,40 +844,44 @@ def _run_misc(res, item):
     phase = 0.37 * (seed % 1000)
     # defaults: window_size=4, delta=0.8 (docstrings)
     hist = [(2, 0.7), (3, 1.9), (1, 0.2), (2, 3.1), (8, 0.9), (2, 0.4), (3, 2.2)]
-    for name, build, rdet in (
-        ("SlidingNis default window", lambda: SlidingNis(0.05), _make_ref(SLIDING, 0.05, 4)),
-        ("FadingMemoryNis default delta", lambda: FadingMemoryNis(0.05), _make_ref(FADING, 0.05, 0.8)),
-        ("SlidingNis window 1", lambda: SlidingNis(0.05, 1), _make_ref(SLIDING, 0.05, 1)),
-        ("SlidingNis window 10", lambda: SlidingNis(0.05, 10), _make_ref(SLIDING, 0.05, 10)),
-        ("FadingMemoryNis delta 0.001", lambda: FadingMemoryNis(0.05, 0.001), _make_ref(FADING, 0.05, 0.001)),
-        ("FadingMemoryNis delta 0.999", lambda: FadingMemoryNis(0.05, 0.999), _make_ref(FADING, 0.05, 0.999)),
-        ("StandardNis", lambda: StandardNis(0.05), _make_ref(STANDARD, 0.05, None)),
-    ):
-        det = _real(build)
-        for rep in range(3):
-            for j, (dim, frac) in enumerate(hist):
-                lst = ref.spd_matrix(dim, phase + j)
-                low = ref.cholesky_lower(lst)
-                u = ref.direction(dim, phase + 0.2 * j)
-                target = frac * rdet.bound_after(dim) if rep != 1 else max(0.0, rdet.needed_nis(rdet.bound_after(dim) * (1 + (EPS if j % 2 else -EPS))))
-                s = math.sqrt(target / ref.quad_form_chol(u, low))
-                vec = [s * t for t in u]
-                metric_r, dof_r, bound_r = rdet.step(ref.quad_form_chol(vec, low), dim)
-                got = bool(_real(det, np.array(vec), np.array(lst)))
-                either = abs(metric_r - bound_r) <= EITHER * bound_r
-                dm = _f(det.metric)
-                ok = (either or got == (metric_r >= bound_r)) and dm is not None and abs(dm - metric_r) <= MTOL * max(metric_r, 1e-300)
-                res.case(
-                    "misc/defaults_and_extremes",
-                    {"detector": name, "step": rep * len(hist) + j + 1, "dim": dim},
-                    ok,
-                    nontrivial=True,
-                    signature=f"C17/misc/{name.replace(' ', '_')}",
-                    observed={"detected": got, "metric": dm},
-                    expected={"detected": metric_r >= bound_r, "metric": metric_r, "bound": bound_r, "dof": dof_r},
-                    item=item,
-                )
-                res.observe(got, dm)
+    builders = (
+        ("SlidingNis default window", lambda: SlidingNis(0.05), (SLIDING, 0.05, 4)),
+        ("FadingMemoryNis default delta", lambda: FadingMemoryNis(0.05), (FADING, 0.05, 0.8)),
+        ("SlidingNis window 1", lambda: SlidingNis(0.05, 1), (SLIDING, 0.05, 1)),
+        ("SlidingNis window 10", lambda: SlidingNis(0.05, 10), (SLIDING, 0.05, 10)),
+        ("FadingMemoryNis delta 0.001", lambda: FadingMemoryNis(0.05, 0.001), (FADING, 0.05, 0.001)),
+        ("FadingMemoryNis delta 0.999", lambda: FadingMemoryNis(0.05, 0.999), (FADING, 0.05, 0.999)),
+        ("StandardNis", lambda: StandardNis(0.05), (STANDARD, 0.05, None)),
+    )
+    # every history in every unit, on full / strongly correlated / mixed-unit / weakly correlated covariances
+    for cov, unit in [(c, u) for c in ("S", "C", "M", "W") for u in UNITS_LATTICE]:
+        for name, build, rcfg in builders:
+            det = _real(build)
+            rdet = _make_ref(*rcfg)
+            for rep in range(3):
+                for j, (dim, frac) in enumerate(hist):
+                    lst, units = _covariance(cov, dim, phase + j, unit)
+                    low = ref.cholesky_lower(lst)
+                    u = [t * w for t, w in zip(ref.direction(dim, phase + 0.2 * j), units)]
+                    target = frac * rdet.bound_after(dim) if rep != 1 else max(0.0, rdet.needed_nis(rdet.bound_after(dim) * (1 + (EPS if j % 2 else -EPS))))
+                    s = math.sqrt(target / ref.quad_form_chol(u, low))
+                    vec = [s * t for t in u]
+                    metric_r, dof_r, bound_r = rdet.step(ref.quad_form_chol(vec, low), dim)
+                    got = bool(_real(det, np.array(vec), np.array(lst)))
+                    either = abs(metric_r - bound_r) <= EITHER * bound_r
+                    dm = _f(det.metric)
+                    ok = (either or got == (metric_r >= bound_r)) and dm is not None and abs(dm - metric_r) <= MTOL * max(metric_r, 1e-300)
+                    res.case(
+                        "misc/defaults_and_extremes",
+                        {"detector": name, "step": rep * len(hist) + j + 1, "dim": dim, "cov": cov, "unit": unit},
+                        ok,
+                        nontrivial=True,
+                        signature=f"C17/misc/{name.replace(' ', '_')}",
+                        observed={"detected": got, "metric": dm},
+                        expected={"detected": metric_r >= bound_r, "metric": metric_r, "bound": bound_r, "dof": dof_r},
+                        item=item,
+                    )
+                    res.observe(got, dm)
     # no detector configured: nothing is raised, nothing is touched
     for adaptive, iod in ((False, False), (True, False), (False, True)):
         flt = _make_filter(adaptive=adaptive, iod=iod)
@@ -810,3 +929,55 @@ def run_item(item):
             item=item,
         )
     return res
+
+
+# ------------------------------------------------------------------------------------------------ cross-item oracle
+def finalize(tier, seed, results):
+    """The statistic has no unit: the runs of one (configuration, family) at different units give, step by step (all
+    tree steps in breadth-first order, then nothing else; before them the five root tails to length 50), the same
+    decisions and the same metric to rounding.  Reference run: unit 1."""
+    groups = {}
+    for r in results:
+        tr = getattr(r, "unit_trace", None)
+        if tr is not None:
+            key, unit, dec, met, item = tr
+            groups.setdefault(fw.stable_hash(key), {})[float(unit)] = (dec, met, item, key)
+    out = fw.Result()
+    steps = 0
+    for _, members in sorted(groups.items()):
+        if len(members) < 2 or 1.0 not in members:
+            continue
+        dec1, met1, _, key = members[1.0]
+        for unit in sorted(u for u in members if u != 1.0):
+            dec, met, item, _ = members[unit]
+            where, obs, exp = None, None, None
+            if len(dec) != len(dec1) or len(met) != len(met1):
+                where, obs, exp = "length", len(dec), len(dec1)
+            else:
+                for j, (a, b, ma, mb) in enumerate(zip(dec, dec1, met, met1)):
+                    same_dec = a == b or "?" in (a, b)
+                    same_met = ma is not None and mb is not None and abs(ma - mb) <= UTOL * MTOL * max(abs(mb), 1e-300)
+                    if not (same_dec and same_met):
+                        where, obs, exp = j, {"detected": a, "metric": ma}, {"detected": b, "metric": mb}
+                        break
+                steps += len(dec)
+            out.case(
+                "units/invariance",
+                {"kind": key[0], "alpha": key[1], "param": key[2], "family": key[3], "unit": unit, "first_difference_at_trace_step": where},
+                where is None,
+                nontrivial=True,
+                signature=f"C17/{key[0]}/units/invariance/{'unit_small' if unit < 1.0 else 'unit_large'}",
+                observed=obs,
+                expected=exp,
+                outcome="same" if where is None else "differs",
+                item=item,
+            )
+    out.extra["unit_invariance_steps_compared"] = steps
+    return out
+
+
+def replay(rec):
+    item = list(rec["item"])
+    if "/units/invariance/" in rec.get("signature", "") and item and item[0] == "explore":
+        return finalize(None, None, [run_item(item), run_item(item[:10] + [1.0])])
+    return run_item(item)
